@@ -369,7 +369,7 @@ func (r *durRunner) open() error {
 	r.database = d
 	r.root = diffdb.New(d, r.rootPfx)
 	r.eff = copyMap(r.base)
-	r.refSnaps = map[int]map[string][]byte{}
+	r.refSnaps, r.refVSnaps = map[int]map[string][]byte{}, map[string]map[int]map[string][]byte{}
 	return nil
 }
 
@@ -381,6 +381,11 @@ func (r *durRunner) setAll(k string, v []byte) {
 	}
 	for _, m := range r.refSnaps {
 		ms = append(ms, m)
+	}
+	for _, t := range r.refVSnaps {
+		for _, m := range t {
+			ms = append(ms, m)
+		}
 	}
 	for _, m := range ms {
 		if m == nil {
